@@ -93,9 +93,13 @@ func genCase(sweep bool) func(t *rapid.T) Case {
 		c.Fresh = rapid.IntRange(0, 7).Draw(t, "fresh") == 7
 		var e *entry
 		if sweep {
+			// The entries about the previous state root need state roots in headers: most sweeps are on such chains.
+			if rapid.IntRange(0, 3).Draw(t, "sweep_srih") != 0 {
+				c.Chain.SRIH = true
+			}
 			c.Corr.Kind = "*"
 			c.Via = "block"
-			c.Setup = rapid.Bool().Draw(t, "setup")
+			c.Setup = true // every sweep covers the on-chain Conflicts entries
 		} else {
 			_, nv := c.Chain.Sizes()
 			ks := kindsFor(c.Chain.SRIH, nv > 1)
